@@ -109,6 +109,15 @@ fn c06_ip_range_rule() {
         ADDR_SEQ = [(a4, ab), (b4, bb)];
         ADDR_CALLS = 0;
     }
+    // native replay (cfg(test): Kani stubs do not exist there) goes through the real address parser
+    #[cfg(test)]
+    let text = {
+        let ip = |v4: bool, bits: u128| if v4 { IpAddr::V4(Ipv4Addr::from(bits as u32)) } else { IpAddr::V6(Ipv6Addr::from(bits)) };
+        format!("{}..{} ", ip(a4, ab), ip(b4, bb))
+    };
+    #[cfg(test)]
+    let res = IpRange::lex(&text);
+    #[cfg(not(test))]
     let res = IpRange::lex("1..2 ");
     match &res {
         Ok((IpRange::Explicit(ExplicitIpRange::V4(r)), rest)) => {
